@@ -36,4 +36,6 @@ pub open spec fn fadd(a: f32, b: f32) -> f32 { a.add_spec(b) }
 pub open spec fn fsub(a: f32, b: f32) -> f32 { a.sub_spec(b) }
 pub open spec fn fmul(a: f32, b: f32) -> f32 { a.mul_spec(b) }
 pub open spec fn fdiv(a: f32, b: f32) -> f32 { a.div_spec(b) }
+// ASSUME(A-F0): `f32 += f32` never panics and is a function of its operands
+pub proof fn f32_add_assign_ok() ensures <f32 as vstd::std_specs::ops::AddAssignSpec<f32>>::obeys_add_assign_spec(), forall|a: f32, b: f32| a.add_assign_req(b) { admit(); }
 } // verus!
